@@ -15,7 +15,7 @@ def _c05_case(c):
 # vm_compute and compared with what the extracted OCaml runner printed (model.txt).
 # This cross-checks the extraction and the OCaml driver, not the implementation.
 
-_VM_ERR = {"OK": "None", "EOF": "Some EEof", "INJECTED": "Some EInjected", "UNEXPECTED_EOF": "Some EUnexpEof",
+_VM_ERR = {"WRITE": "Some EWrite", "SHORT_WRITE": "Some EShortWrite", "TRAVERSAL": "Some ETraversal", "OVERWRITE": "Some EOverwrite", "OK": "None", "EOF": "Some EEof", "INJECTED": "Some EInjected", "UNEXPECTED_EOF": "Some EUnexpEof",
            "BAD_DIGEST": "Some EBadDigest", "TRAILING": "Some ETrailing", "MISMATCH": "Some EMismatch",
            "EARLY": "Some EEarly", "INVALID_SIZE": "Some EInvalidSize", "EXISTS": "Some EExists",
            "TOO_BIG": "Some ETooBig", "NOT_FOUND": "Some ENotFound", "DUP_NAME": "Some EDupName", "FUEL": "Some EFuel"}
@@ -45,7 +45,7 @@ def _vm_script(tok):
         return "(@nil ev)"
     out = []
     for t in tok.split(","):
-        out.append("Zero" if t == "Z" else "Fail" if t == "F" else "Data %s" % _vm_str(t[1:]))
+        out.append("Zero" if t == "Z" else "Fail" if t == "F" else "Eof" if t == "E" else "Data %s" % _vm_str(t[1:]))
     return "[" + "; ".join(out) + "]"
 
 
@@ -88,6 +88,57 @@ def _vm_goal(case, out):
         ln, fv = o[2][1:].split(":")
         return ("let evs := %s in let '((e, out), v) := %s in (e, vm_delivered evs v, length out, vm_fnv out)\n  = (%s, %s%%nat, %s%%nat, %s)"
                 % (_vm_script(sc), call, _VM_ERR[o[0]], o[1], ln, fv))
+    if p[0] == "CW":
+        _, hs, bufsz, dg, sz, comb, lim, sc, wmode, wat = p
+        call = ("copy_buffer_w (vm_h %s) %s true (vm_fuel evs) (mkBase evs %s) %s%%nat %s %s (mkW (Some %s) %s%%nat)"
+                % (_vm_tbl(hs), _vm_bool(comb), _vm_lim(lim), bufsz, _vm_str(dg), _vm_z(sz), "WShort" if wmode == "short" else "WFail", wat))
+        ln, fv = o[2][1:].split(":")
+        return ("let evs := %s in let '(((e, out), v), _) := %s in (e, vm_delivered evs v, length out, vm_fnv out)\n  = (%s, %s%%nat, %s%%nat, %s)"
+                % (_vm_script(sc), call, _VM_ERR[o[0]], o[1], ln, fv))
+    if p[0] == "PF":
+        hs, kind, n = p[1], p[2], int(p[3])
+        f = p[4:]
+        limit = "None" if kind == "mem" else "(Some %s)" % _vm_z(kind[3:])
+        lets, closes, reads = [], [], []
+        m = "(@nil (desc * str))"
+        steps = " ".join(o).split(" | ")
+        for i in range(n):
+            stop, mt, dg, sz, comb, sc, ks = f[7 * i:7 * i + 7]
+            kl = "(@nil nat)" if ks == "-" else "[" + "; ".join(k + "%nat" for k in ks.split(",")) + "]"
+            lets.append("let '((rs%d, c%d), m%d) := proxy_fetch (vm_h tbl) %s %s %s (mkDesc %s %s %s) %s %s %s in"
+                        % (i, i, i, limit, _vm_bool(stop), m, _vm_str(mt), _vm_str(dg), _vm_z(sz), _vm_bool(comb), _vm_script(sc), kl))
+            m = "m%d" % i
+            toks = steps[i].split(" ")
+            rd = [t for t in toks if t.startswith("r=")]
+            cl = [t for t in toks if t.startswith("c=")][0][2:]
+            closes.append(_VM_ERR[cl])
+            reads.append("[" + "; ".join("(%s%%nat, %s)" % (t[2:].split("/")[0].split(":")[0], _VM_ERR[t.split("/")[1]]) for t in rd) + "]"
+                         if rd else "(@nil (nat * option rerr))")
+        b = steps[n].strip()[2:] if len(steps) > n else "-"
+        cnt = 0 if b == "-" else b.count(";") + 1
+        return ("let tbl := %s in %s\n  ([%s], [%s], length %s)\n  = ([%s], [%s], %d%%nat)"
+                % (_vm_tbl(hs), "\n  ".join(lets),
+                   "; ".join("map (fun r => (length (fst r), snd r)) rs%d" % i for i in range(n)),
+                   "; ".join("c%d" % i for i in range(n)), m,
+                   "; ".join(reads), "; ".join(closes), cnt))
+    if p[0] == "ST" and p[2].startswith("file"):
+        hs, kind, n = p[1], p[2], int(p[3])
+        f = p[4:]
+        opts = {"fileD": "(mkOpts true false (Some defaultFallbackPushSizeLimit))", "fileI": "(mkOpts false true (Some defaultFallbackPushSizeLimit))",
+                "fileF": "(mkOpts false false None)"}.get(kind, "default_opts")
+        lets, res = [], []
+        st = "(mkFs [] [] [] [])"
+        for i in range(n):
+            name, mt, dg, sz, comb, sc = f[6 * i:6 * i + 6]
+            nm = name.split(":")[0]
+            lets.append("let evs%d := %s in let '(e%d, s%d) := file_push_opt (vm_h tbl) %s true %s (vm_fuel evs%d) %s %s (mkDesc %s %s %s) evs%d in"
+                        % (i, _vm_script(sc), i, i, _vm_bool(comb), opts, i, st, _vm_str(nm), _vm_str(mt), _vm_str(dg), _vm_z(sz), i))
+            st = "s%d" % i
+            res.append(_VM_ERR[o[3 * i]])
+        b = [t for t in o if t.startswith("B=")][0][2:]
+        cnt = 0 if b == "-" else b.count(";") + 1
+        return ("let tbl := %s in %s\n  ([%s], length (f_files %s)) = ([%s], %d%%nat)"
+                % (_vm_tbl(hs), "\n  ".join(lets), "; ".join("e%d" % i for i in range(n)), st, "; ".join(res), cnt))
     if p[0] == "ST" and p[2] in ("mem", "oci"):
         hs, kind, n = p[1], p[2], int(p[3])
         f = p[4:]
@@ -122,17 +173,21 @@ def _c05_vm_sample(d, tier, coq, build, want=240):
     if len(outs) < 1000:
         return []  # replay / corpus runs
     if tier == "thorough":
-        quota = {"RA": 90, "CB": 90, "ST": 80}
+        quota = {"RA": 80, "CB": 80, "ST": 70, "STF": 50, "CW": 40, "PF": 40}
     else:
-        quota, want = {"RA": 20, "CB": 20, "ST": 20}, 50
+        quota, want = {"RA": 15, "CB": 15, "ST": 15, "STF": 10, "CW": 8, "PF": 8}, 50
     total, got, stride = collections.Counter(), collections.Counter(), collections.Counter()
 
     def eligible(c):
         k = c.split(" ", 1)[0]
         if k not in quota or len(c) > 2500:
             return None
-        if k == "ST" and c.split(" ")[2] not in ("mem", "oci"):
-            return None
+        if k == "ST":
+            kd = c.split(" ")[2]
+            if kd.startswith("file"):
+                return "STF"
+            if kd not in ("mem", "oci"):
+                return None
         return k
     with open(os.path.join(d, "cases.txt")) as f:
         for l in f:
@@ -174,7 +229,7 @@ def _c05_vm_sample(d, tier, coq, build, want=240):
 
 CONFIG = {
     "properties_file": "Properties/C05.v",
-    "proof_files": ["Base/Prelude.v", "Proofs/Verify.v", "Proofs/VerifyComplete.v", "Proofs/VerifyProxy.v", "Proofs/VerifyFuel.v", "Proofs/VerifyConc.v", "Proofs/VerifyTop.v"],
+    "proof_files": ["Base/Prelude.v", "Proofs/Verify.v", "Proofs/VerifyComplete.v", "Proofs/VerifyProxy.v", "Proofs/VerifyFuel.v", "Proofs/VerifyConc.v", "Proofs/VerifyTop.v", "Proofs/VerifyWriter.v", "Proofs/VerifyNames.v", "Proofs/VerifyFileConc.v", "Proofs/VerifyOpts.v", "Proofs/VerifyFacts.v", "Proofs/VerifyChunk.v", "Proofs/VerifyEof.v"],
     "model_files": ["Generated/GC05.v", "Model/Verify.v"],
     "extract": "XC05.v",
     "ml_main": "c05_main.ml",
@@ -183,22 +238,19 @@ CONFIG = {
     "post_model": _c05_vm_sample,
     "assumptions": [
         "the digest function is a parameter H : algorithm -> bytes -> encoded digest of every theorem, with NO assumption (no collision freedom is used); the correspondence supplies the SHA-2 values (crypto/sha256, crypto/sha512 of the Go standard library) to the extracted model as a table",
-        "go-digest v1.0.0 Digest.Validate / Verifier (pinned dependency) hand-modelled: sha256/sha384/sha512 registered, lower-case hex of the exact length; Verified() = (digest == alg:hex(hash))",
+        "go-digest (pinned dependency): the algorithm table (names, encoded lengths, lower-case hex) is regenerated by the translator from its algorithm.go (kind c05_digest_algs); Digest.Validate's control flow and Verified() = (digest == alg:hex(hash)) are hand-modelled; all three algorithms are available because the harness links crypto/sha256 and crypto/sha512",
+        "io.LimitedReader, io.TeeReader, io.ReadFull (io.ReadAtLeast) and io.CopyBuffer (incl. its write-error / io.ErrShortWrite handling: copy_loop_w) of the Go standard library are hand-modelled statement by statement and tied by the correspondence; os.File.ReadFrom falls back to io.Copy with a 32 KiB buffer for a *VerifyReader source (go1.26.8, linux) -- irrelevant: the theorems hold for every buffer size and C05_copybuffer_bufsz_independent proves the result is the same for all of them",
+        "reader scripts quantify over arbitrary chunking, 0-byte reads, any number of injected errors, data+EOF / data+error in one call, and readers for which io.EOF is not final (an Eof event answers (0, EOF) once and the script goes on); the clauses 'the whole reader equals the result', 'trailing bytes are an error', 'a failing reader is rejected' and the completeness theorems are stated for scripts without such a mid-script EOF (neof = 0); for every script C05_accepts_exactly_upto_eof / C05_trailing_before_eof_rejected say the same about the bytes before the first EOF (what lies behind an EOF is never read)",
         "descriptor sizes above 2^30 are outside the CORRESPONDENCE (the extracted model counts in Peano numbers) but inside theorems and oracle: Size 1<<62 / MaxInt64 are generated for ReadAll and the memory / limited / OCI / file stores under recover() (oracle: an error, no panic); they are not generated for the caching proxy, whose push goroutine cannot be guarded by the harness",
-        "io.LimitedReader, io.TeeReader, io.ReadFull (io.ReadAtLeast) and io.CopyBuffer of the Go standard library hand-modelled statement by statement; the destination writer never fails (disk-full / write errors are not modelled)",
-        "os.File.ReadFrom falls back to io.Copy with a 32 KiB buffer for a *VerifyReader source (go1.26.8, linux); the theorems hold for every buffer size",
-        "file system: os.CreateTemp names are unique, os.Rename is atomic and replaces the target (process runs as root, so a read-only target is replaced rather than refused); blobs/<alg>/<encoded> is injective in the digest string",
-        "file.Store: path/filepath is not modelled, the resolved (cleaned) path of a name is an input of the model; names with path traversal, the unpack annotation and manifest media types are not generated; names that alias one path ARE generated and modelled: there the property fails (known finding file-alias-clobbers-visible, theorem C05_push_file_partial assumes path_free, C05_push_file_alias_refuted is the witness)",
-        "concurrent pushes: the micro-step transition system of Model/Verify.v (cstep) is tied to the code by outcome membership: for races of 2-3 goroutines on one OCI layout the observed per-goroutine results + final blobs/ listing + ingest/ count must be one of the terminal outcomes of the exhaustive interleaving of the model (explore, proved to produce runs of the system only; Writes are explored unsplit because they touch only the thread's own ingest file -- this reduction is argued, not proved); individual file-system micro-steps are not observed (no syscall tracing); larger races and memory/limited stores are covered by the concurrent oracle only",
-        "cas.Proxy is modelled for a cas.Memory cache (NewProxy / NewProxyWithLimit), a caller that issues any sequence of Read sizes and then Close, StopCaching on/off; the io.Pipe is synchronous, which makes the session deterministic (a Write returns the prefix the push consumed + the push error, the drain loop after a successful push consumes the rest); a caller that never calls Close, Proxy over other cache implementations and Proxy.Exists are not modelled",
-        "destination errors are outside the property's quantifier (inputs = bytes, descriptors, reader behaviours, schedules) and outside the model (the destination never fails); ioutil.CopyBuffer is driven against a failing / short-writing io.Writer in the oracle only (never nil once bytes were lost); disk faults (ENOSPC, a failing Close) of oci.Storage / file.Store are not injected -- note: file.Store.saveFile records digestToPath before the deferred Close, which a Close error would leave behind (not observable by this check)",
-        "store options and public wrappers: the model covers file.New defaults, oci.NewStorage, cas.Memory, LimitedStorage; oci.Store (oci.New), memory.Store, file.Store with DisableOverwrite / ForceCAS / IgnoreNoName / NewWithFallbackStorage are run by the oracle only (stream SX, incl. races on file and oci.Store); Store.IgnoreNoName discards unnamed pushes by documented option (Push may return nil for any content): there only 'nothing became visible' is judged; AllowPathTraversalOnWrite, SkipUnpack / the unpack annotation (pushDir) and manifest media types (restoreDuplicates, graph indexing) are not generated",
-        "reader scripts: EOF is sticky (a reader that delivers data or an error after io.EOF is not expressible); several injected errors per script, 0-byte reads and data+EOF / data+error in one call are",
-        "concurrency: theorems for oci.Storage (C05_concurrent_same_digest, tied by outcome membership) and cas.Memory / LimitedStorage (C05_concurrent_memory, tied by outcome membership of 2-3 goroutine races as well); file.Store and oci.Store races (one digest under two names, one name twice, descriptors of one digest with different Size) are oracle only; 'at every instant' is observed by a polling goroutine (Fetch and a walk of blobs/), i.e. by sampling",
-        "the in-Coq vm_compute re-evaluation of correspondence cases: 60 goals in the quick tier, 260 in the thorough tier; go-digest's grammar / algorithm table is hand-modelled (not regenerated by the translator)",
+        "file system: os.CreateTemp names are unique, os.Rename is atomic and replaces the target (process runs as root), blobs/<alg>/<encoded> is injective in the digest string; disk faults of oci.Storage / file.Store (ENOSPC, a failing Close) are not injected -- note: file.Store.saveFile records digestToPath before the deferred Close, which a Close error would leave behind (not observable by this check)",
+        "file.Store: resolveWritePath is modelled for relative slash-separated names (lexical filepath.Clean, refusal of names that leave the working directory; absolute names are generated only outside the working directory and refused) and compared with filepath.Clean on every generated name; symbolic links in the working directory, AllowPathTraversalOnWrite, the unpack annotation (pushDir) and manifest media types (restoreDuplicates, graph indexing) are not generated; names that alias one path ARE generated and modelled: there the property fails (known finding file-alias-clobbers-visible; C05_push_file_names assumes no_alias, C05_push_file_alias_refuted is the witness, C05_push_file_disable_overwrite needs no such hypothesis)",
+        "store options and wrappers: DisableOverwrite, IgnoreNoName (documented discard: Push returns nil without reading), NewWithFallbackStorage(unlimited cas.Memory) are modelled (file_push_opt) and judged by the correspondence; ForceCAS only matters for manifests; the public oci.Store / memory.Store are judged against the oci.Storage / cas.Memory models (for non-manifest media types their Push adds only graph/index bookkeeping)",
+        "cas.Proxy is modelled for a cas.Memory cache (NewProxy / NewProxyWithLimit), a caller that issues any sequence of Read sizes and then Close, StopCaching on/off; the io.Pipe is synchronous, which makes the session deterministic (a Write returns the prefix the push consumed + the push error, the drain loop after a successful push consumes the rest) -- this determinism is argued, the pipe itself is not a transition system; a caller that never calls Close (its observation would race with the push goroutine), Proxy over other cache implementations and Proxy.Exists are not modelled",
+        "concurrency: three transition systems with invariant theorems over every schedule -- oci.Storage pushes (cstep: Stat / CreateTemp / Write / Remove / Rename), cas.Memory / LimitedStorage pushes (mstep: Load / ReadAll / LoadOrStore), named file.Store pushes (fstep: name lock, duplicate check, resolveWritePath, Create, CopyBuffer, record-or-remove; digestToPath.Store and status.exists are one step); their exhaustive explorers are proved sound and complete, and for the OCI system splitting the Writes is proved not to add outcomes (C05_split_writes_explored) and the explorer's fuel 4n+2 is proved sufficient (C05_explorer_fuel) and races of 2-3 goroutines must end in one of the explored outcomes; larger races, oci.Store races and the 'at every instant' clause are observed by a polling goroutine (Fetch and a walk of blobs/), i.e. by sampling; no per-syscall traces",
+        "the in-Coq vm_compute re-evaluation of correspondence cases (ReadAll, CopyBuffer, faulty destination, store / file / proxy histories): about 70 goals in the quick tier, 360 in the thorough tier",
     ],
-    "level_text": "Coq theorems for every reader behaviour (arbitrary chunking, 0-byte reads, error at any offset, data with EOF), every descriptor and every digest function: ReadAll / any use of VerifyReader / CopyBuffer (any buffer size) succeed only with exactly the descriptor's bytes and an exhausted reader; malformed or unsupported digest, negative size, short reader, wrong first-Size bytes and trailing bytes are always errors; Push on memory, limited, OCI and file stores stores exactly those bytes or leaves Exists/Fetch/blobs unchanged; after any push history everything visible matches; any interleaving of concurrent OCI pushes keeps every blob verified; pre-fix negative-size acceptance kept as a refuted witness. Model tied to the code by differential runs (scripted readers x descriptors x push histories on the real stores, listing blobs/ and ingest/) and an independent SHA-2 oracle incl. goroutine races and the caching proxy",
-    "level_note": "digest function abstract (no SHA-2 model); Go io helpers and go-digest validation hand-modelled (tied by correspondence, AST hashes of the mirrored functions recorded); write errors of the destination and path traversal/unpack in file.Store are not modelled; cas.Proxy is modelled for memory caches and closing callers; file.Store name aliasing violates the property (known finding file-alias-clobbers-visible, theorem only _partial); options/wrappers, destination faults, file-store races and sizes > 2^30 are oracle-only; the concurrent transition system is tied by outcome-set membership of small races (not by per-syscall traces)",
+    "level_text": "Coq theorems for every reader script (arbitrary chunking, 0-byte reads, errors at any offsets, data with EOF/error), every descriptor, every digest function and every fuel above the script weight: ReadAll / FetchAll / any use of VerifyReader / CopyBuffer (any buffer size, also into a failing or short-writing destination) succeed only with exactly the descriptor's bytes and an exhausted reader, and do succeed on every well-behaved reader of the right bytes; malformed or unsupported digest, negative size, short or failing reader, wrong first-Size bytes and trailing bytes are always errors; Push on memory, limited, OCI and file stores (resolveWritePath and the options DisableOverwrite / IgnoreNoName / fallback limit included) stores exactly those bytes or leaves Exists/Fetch/blobs unchanged, over all histories; the caching proxy's cache only ever holds verified content over all fetch histories; three transition systems (OCI, memory/limited, named file pushes) keep everything visible verified under every schedule; refuted witnesses for the pre-fix negative size and for file-name aliasing. Model tied to the code by differential runs (scripted readers x descriptors x push / fetch histories on the real stores and wrappers, listings of blobs/, ingest/ and the working directory, a final sweep of every descriptor), outcome membership of goroutine races in the exhaustively explored (sound + complete) model outcomes, translator-regenerated digest table and source facts, an in-Coq vm_compute sample, and an independent SHA-2 oracle",
+    "level_note": "digest function abstract (no SHA-2 model); Go io helpers hand-modelled and tied by correspondence, AST hashes and 17 translator-checked source facts; go-digest table regenerated; sizes > 2^30 (oracle only), disk faults, symlinks / unpack / manifests in file.Store and non-closing proxy callers are not modelled; file.Store name aliasing violates the property (known finding file-alias-clobbers-visible; full theorems under no_alias or DisableOverwrite); concurrency theorems are tied to the code by outcome membership of small races, not by syscall traces",
     "technique": "machine-checked proof in Coq (invariants of the VerifyReader state machine over all reader scripts, store invariants over all push histories, transition-system invariant over all interleavings) + translator-regenerated constants/AST anchors + model/implementation correspondence",
     "explanation": "theorems about an executable model of content/reader.go, internal/ioutil/io.go, cas.Memory, LimitedStorage, oci.Storage.Push and file.Store.push whose reader is an arbitrary script; the extracted model and the real code are run on the same generated scripts/descriptors/push histories and their results, Exists/FetchAll observations and directory listings are diffed; an independent oracle recomputes SHA-2 and checks the property statement directly (also under goroutine races and through the caching proxy)",
 }
